@@ -205,7 +205,7 @@ theorem closedLoop_of_cyclic (ts : Array (Facet K)) (pts : Array (V3 K)) (point 
 (`needs_fixing == false`), is not empty and is emitted in cyclic order (`CyclicLoop`) -/
 def StepClosed (negMax : K) (pts : Array (V3 K)) (i : Nat) (ts : Array (Facet K)) : Prop :=
   ∀ point, (tAt ts i).valid = true →
-    indexedSupportPointId negMax (tAt ts i).normal pts (tAt ts i).vis.toList = some point →
+    H3.indexedSupportPointId negMax (tAt ts i).normal pts (tAt ts i).vis.toList = some point →
     (countSeconds pts.size (silhouetteStep pts point i ts).ts (silhouetteStep pts point i ts).out).2 = false ∧
     (silhouetteStep pts point i ts).out.isEmpty = false ∧
     CyclicLoop (silhouetteStep pts point i ts).ts (silhouetteStep pts point i ts).out
